@@ -605,27 +605,10 @@ def teardown_rule(res, fx):
         res.ob('TEARDOWN-PAIR', f.where(c), 'RemoveChild(recurse) removes the children of the removed node in a loop that runs until none is left', ok, function=f.q, key='TEARDOWN-PAIR|%s|drain' % f.q,
                message='DataNode::RemoveChild no longer repeats the recursive removal until the child has no children: only the first grandchild is removed with notifications, the others vanish '
                        'silently with the parent object, so subscribers keep nodes of a departed session')
-    # ---- copy-on-write of the shared subscriber tables: modify in place only when the caller and the cache are the ONLY holders
-    gs = [g for g in fx.funcs.values() if g.full and g.q.endswith('ImmutableHashtablePool::GetRefStatus')]
-    if not gs:
-        raise AnalysisBroken('OWN-ID: ImmutableHashtablePool::GetRefStatus not found (instantiation for the subscriber tables)')
-    g = gs[0]
-    inl = fx.enum_const('REF_STATUS_INLRUCACHE')
-    rets = [r for r in g.walk() if r['k'] == 'ReturnStmt' and r['ch'] and any(x.get('n') == 'REF_STATUS_INLRUCACHE' for x in r['ch'][0].walk())]
-    ok, how = bool(rets), None
-    for r in rets:
-        okr = False
-        p = P.pos_of(g, r)
-        for (c_, truth) in (C.guards_of_block(g, p[0]) if p else []):
-            gn, pol = P.strip_not(g.nodes[c_])
-            if gn['k'] == 'BinaryOperator' and gn.get('op') == '==' and truth == pol and any(x.is_call() and (x.get('q') or '').endswith('::GetRefCount') for x in gn.walk()) \
-                    and any(A.strip_casts(y).get('v') == 2 for y in gn['ch']):
-                okr, how = True, gn.text(40)
-        ok = ok and okr
-    res.ob('OWN-ID', g.where(), 'a shared subscriber table is classified "only the caller and the cache hold it" (so it may be modified in place) only under GetRefCount() == 2', ok, how=how, function=g.q,
-           key='OWN-ID|%s|cow-exact' % g.q.split('<')[0],
-           message='ImmutableHashtablePool::GetRefStatus reports REF_STATUS_INLRUCACHE without an exact GetRefCount() == 2 test: a table that other DataNodes still share is modified in place, so one '
-                   'session\'s subscription mark appears on (or disappears from) nodes it never subscribed to, and can outlive the session')
+    from . import srs_shared as _SH
+    _SH.cow_exact_rule(res, fx, 'OWN-ID')
+    _SH.cache_hit_compares_content_rule(res, fx, 'OWN-ID')
+    _SH.same_key_rule(res, fx, 'TEARDOWN-PAIR')
     # ---- RESET-COMPLETE: DataNode objects are recycled through an ObjectPool; Reset() (+ Init()) must restore every member that any other method can change,
     # otherwise a node created for a later session inherits state from an unrelated, departed one
     DNC = 'muscle::DataNode'
